@@ -30,6 +30,7 @@ let call_of = function
   | ["sub"; m; t; p; o; up] -> CSub (nati m, ni t, nati p, b o, ni up)
   | ["unsub"; m; t] -> CUnsub (nati m, ni t)
   | ["tell"; m; r; d; af] -> CTell (nati m, nati r, ni d, b af)
+  | ["tellmany"; m; r; d; n] -> CTellMany (nati m, nati r, ni d, nati n)
   | ["publish"; m; t; d; af] -> CPublish (nati m, ni t, ni d, b af)
   | ["broadcast"; m; d; af] -> CBroadcast (nati m, ni d, b af)
   | ["pill"; m; r] -> CPill (nati m, nati r)
@@ -43,7 +44,7 @@ let call_of = function
 let call_names = [ "?"; "ctxreg"; "ctxdereg"; "finalize"; "loop"; "dispatch"; "quit"; "ctxlen"; "stats"; "settick"; "reg"; "dereg"; "start";
   "pause"; "resume"; "stop"; "state"; "ref"; "unref"; "become"; "unbecome"; "stash"; "unstash"; "evtref"; "evtunref"; "batchsize";
   "batchtimeout"; "tb"; "sub"; "unsub"; "tell"; "publish"; "broadcast"; "pill"; "srcreg"; "srcdereg"; "srclen"; "fdwrite"; "fire";
-  "firetick"; "errno"; "live" ]
+  "firetick"; "errno"; "live"; "tellmany" ]
 
 let desc_str d =
   Printf.sprintf "%d:%d:%d:%d:%d:%d:%d" (int_of_nat d.d_kind) (int_of_n d.d_key) (int_of_n d.d_topic) (int_of_n d.d_data)
@@ -73,7 +74,7 @@ let () =
     while true do
       match tokens (input_line ic) with
       | "case" :: id :: _ ->
-          let mods = ref [] and procs = Hashtbl.create 16 and cbs = ref [] and tsl = ref [] and rem = ref [] in
+          let mods = ref [] and procs = Hashtbl.create 16 and cbs = ref [] and tsl = ref [] and rem = ref [] and pcap = ref 0 in
           let curp = ref (-1) and curl = ref [] in
           let fin = ref false in
           while not !fin do
@@ -83,6 +84,7 @@ let () =
                 mods := { ms_name = ni name; ms_slot = nati slot; ms_replace = b rp; ms_persist = b pe; ms_denyctx = b dc;
                           ms_denypub = b dp; ms_denysub = b ds; ms_hooks = { h_eval = b he; h_start = b hs; h_stop = b ht } } :: !mods
             | ["tslot"; t; s] -> tsl := (ni t, nati s) :: !tsl
+            | ["pipecap"; n] -> pcap := int_of_string n
             | ["rem"; p; t; v] -> rem := ((ni p, ni t), b v) :: !rem
             | "cb" :: m :: k :: h :: specs ->
                 let sp = List.map (fun s -> match String.split_on_char ':' s with
@@ -97,7 +99,7 @@ let () =
           done;
           let maxp = Hashtbl.fold (fun k _ a -> max k a) procs 1 in
           let plist = List.init (maxp + 1) (fun i -> try Hashtbl.find procs i with Not_found -> []) in
-          let sc = { sc_mods = List.rev !mods; sc_procs = plist; sc_cbs = List.rev !cbs; sc_tslot = !tsl; sc_rematch = !rem } in
+          let sc = { sc_mods = List.rev !mods; sc_procs = plist; sc_cbs = List.rev !cbs; sc_tslot = !tsl; sc_rematch = !rem; sc_pipecap = nat_of_int !pcap } in
           Printf.fprintf oc "case %s\n" id;
           List.iter (fun t -> output_string oc (tev_str t); output_char oc '\n') (core_run fuel sc);
           output_string oc "end\n"
